@@ -3,6 +3,7 @@
   (`walk` / `mapPipeline` with the interpreted oracle `Compose.electionVote`).
 -/
 import CTM.Lemmas.ComposeHome
+import CTM.Lemmas.ComposeWF
 
 namespace CTM.C18
 open CTM CTM.LevelLoop CTM.OutBridge CTM.Election CTM.Numeric CTM.Compose
@@ -55,6 +56,34 @@ example : ((walk exTree (electionVote exPHome) [2, 4, 1]).toOption.getD []).map
     (fun le => ((le.1 : Nat), (le.2.assignment : Nat), le.2.prob, le.2.corr, le.2.agg)) =
     [(0, 10, 1, some 1, some 1), (1, 20, 1, some 1, some 1), (2, 30, 1, some 1, some 1)] := by
   decide +kernel
+
+/-- ... with the tree part derived: on a taxonomy the validator accepts, for a
+leaf `lf` and a cell `x` for which the guard holds at every node that offers a
+choice and has `lf` below it (`GuardBelow`), the way home exists — `path` runs
+through all levels, every node on it has `lf` below it — and the one-cell run of
+the level loop follows it: `lf`'s ancestor at EVERY level, probability 1,
+aggregate probability 1, no runner-up, correlation 1 everywhere as soon as some
+node on the path offers a choice. -/
+theorem centroid_maps_home_validated (P : ElectionParams) (htie : TieOK P) (t : RawTree)
+    (hv : t.validate = .ok ()) (d : RawTree.DictOK t) (hN : t.hierarchy.Nodup)
+    (x : List Rat) (lf : Node)
+    (hl : lf ∈ t.nodesAt (t.hierarchy[t.hierarchy.length - 1]'(by
+      have := RawTree.hierarchy_ne_nil_of_validate hv
+      have := List.length_pos_of_ne_nil this
+      omega)))
+    (hg : GuardBelow P t x lf) :
+    ∃ path r, path.map (·.1) = t.hierarchy ∧ (∀ la ∈ path, lf ∈ t.asLeaves la.1 la.2) ∧
+      walk t (electionVote P) x = .ok r ∧ assignments r = path ∧
+      ∀ le ∈ r, le.2.prob = 1 ∧ le.2.agg = some 1 ∧ le.2.ru = some ([], [], []) ∧
+        (le.2.corr = none ∨ le.2.corr = some 1) ∧
+        (ChoiceOnPath t none path → le.2.corr = some 1) := by
+  obtain ⟨path, h1, h2, h3⟩ := exists_homePath P hv d hN x lf hl hg
+  obtain ⟨r, hr, ha, hall⟩ := centroid_maps_home_whole_path P htie t x lf path h1 h2
+  exact ⟨path, r, h1, h3, hr, ha, hall⟩
+
+/-- non-vacuity: the (validated) example taxonomy, leaf 30, its centroid -/
+example := centroid_maps_home_validated exPHome exPHome_tie exTree (by decide)
+  (RawTree.dictOK_of_b (by decide)) (by decide) [2, 4, 1] 30 (by decide) exPHome_guardBelow
 
 /-- the same for the records of the whole pipeline: whatever the chunking,
 worker count and gather order, and with `drop_level` / `flatten` (`t` = the
